@@ -309,18 +309,11 @@ theorem sfine_pushed_into_current {s s' : Ocpp.ServerFine.St} (h : SFine.Reach s
 /-- with the repair the same interleaving drops the orphan and posts a ready signal -/
 example : (Ocpp.ServerFine.runL {} SFine.orphanRun).map (fun s => (s.pump, s.pend, s.cur)) = some (.wfOS 1, none, some 1) := by decide
 
-/-- C11 (after /repo 9ab511e): in every interleaving of connection attempts and teardowns for one id, what `server.Write`
-    accepts reaches the connection the application knows as the id's session (or a registered connection while no session of
-    the id is open for the application) — never the next connection while the end of the previous one is still being reported -/
-theorem fine_write_reaches_no_later_session (ls : List Ocpp.WsIdFine.Label) (s : Ocpp.WsIdFine.St)
-    (h : Ocpp.WsIdFine.runL {} ls = some s) (k : Nat) (hw : Ocpp.WsIdFine.writeTarget true s = some k) :
-    C13Fine.openOf s.log = some (some k) ∨ C13Fine.openOf s.log = some none :=
-  C13Fine.write_reaches_no_later_session ls s h k hw
-
-/-- before /repo 9ab511e (the rounds `c11_leak` on the real server): the write reached the next connection -/
-theorem fine_old_write_reaches_next_connection :
+/-- OPEN FINDING `leak/old-call-on-new-connection` (rounds `c11_leak` on the real server), stated on the model: in this
+    interleaving a write of the application, for which connection 0 is still the session of the id, reaches connection 1 -/
+theorem fine_write_reaches_next_connection :
     (Ocpp.WsIdFine.runL {} C13Fine.leakRun).map (fun s => (Ocpp.WsIdFine.writeTarget false s, C13Fine.openOf s.log)) = some (some 1, some (some 0)) ∧
     (Ocpp.WsIdFine.runL {} C13Fine.leakRun).map (Ocpp.WsIdFine.writeTarget true) = some none :=
-  C13Fine.old_write_reaches_next_connection
+  C13Fine.write_reaches_next_connection
 
 end C11
